@@ -82,6 +82,8 @@ def suite_setters(ctx, case):
     ctx.corr('setters', dict(case, ops=[]), drv.ask('dom.obs'), obs(d), rtol=1e-13, what='state after constructor')
     fresh_pred(ctx, 'setters', dict(case, ops=[]), d)
     apply_ops(ctx, 'setters', case, d)
+    if case.get('decoy'):
+        decoy = pyPRISM.Domain(length=int(d.length), dr=float(d.dr) * 0.37); decoy.dk = float(d.dk) * 1.9
     ctx.corr('setters', case, drv.ask('dom.coef'), 'c2 %s c3 %s' % (fl(d.DST_II_coeffs), fl(d.DST_III_coeffs)), rtol=1e-13, what='DST coefficient arrays')
 
 def mk_array(kind, L, seed):
@@ -105,6 +107,10 @@ def suite_transform(ctx, case):
         elif kind == 'dr': d.dr = v; drv.ask('dom.set dr ' + f2h(v))
         else: d.dk = v; drv.ask('dom.set dk ' + f2h(v))
     L = int(d.length)
+    if case.get('decoy'):
+        # a second Domain (same length, other spacing) is built and re-spaced AFTER d was configured: Domains are independent objects
+        decoy = pyPRISM.Domain(length=L, dr=float(d.dr) * 0.37); decoy.dk = float(d.dk) * 1.9
+        decoy2 = pyPRISM.Domain(length=L + 3, dr=0.05)
     f = mk_array(case['akind'], L, case['aseed']); g = mk_array('normal', L, case['aseed'] + 1); a = case.get('a', 1.7)
     f_given = f.copy()
     try:
@@ -218,7 +224,7 @@ def gen_dom(rng, maxL, maxops):
             else: v = gen_spacing(rng)
             last[k] = v; last['dk' if k == 'dr' else 'dr'] = None
         ops.append([k, v])
-    case['ops'] = ops
+    case['ops'] = ops; case['decoy'] = rng.random() < 0.4
     return case
 
 def cur_len(case):
@@ -247,7 +253,7 @@ def generate(ctx):
     for _ in range(ctx.n(150, 1500)):
         case = gen_dom(rng, min(maxL, ctx.n(48, 160)), 4)
         case['akind'] = rng.choice(['normal', 'normal', 'spike', 'smooth', 'wide', 'ones', 'int', 'bool']); case['aseed'] = rng.randrange(10 ** 6)
-        case['a'] = float('%.4g' % rng.uniform(-3, 3))
+        case['a'] = float('%.4g' % rng.uniform(-3, 3)); case['decoy'] = rng.random() < 0.5
         L = cur_len(case)
         ctx.case('transform', case, True, tags=['akind:' + case['akind'], 'L<=%d' % (16 * ((L + 15) // 16)), 'hist' if case['ops'] else 'nohist'])
         suite_transform(ctx, case)
